@@ -68,6 +68,14 @@ def build_cases(tier, seed):
         for combo in combos:
             for seats in (1, 2):
                 cs.append(("scot", (n, seats, combo)))
+    # ten and more candidates (two-digit candidate numbers)
+    for n in (10, 12) if tier == "quick" else (9, 10, 11, 12, 13):
+        nums = [str(k) for k in range(1, n + 1)]
+        rk = lambda *xs: tuple((x,) for x in xs)
+        for combo in (((rk(nums[0], nums[9], nums[1]), 2), (rk(nums[n - 1], nums[2]), 1)),
+                      ((rk(*nums), 1),), ((rk(*nums[::-1]), 10), (rk(nums[1], nums[9]), 2)),
+                      tuple((rk(x), 1) for x in nums)):
+            cs.append(("scot", (n, 2, combo)))
     for k in ("first_row_len3", "cand_overcount", "cand_undercount", "missing", "empty"):
         cs.append(("scotbad", k))
     for c in fam.prof_list(fam.weak_family(3), 2, (1, F(3, 2)), fam.cands(3))[:: (3 if tier == "quick" else 1)]:
@@ -77,7 +85,7 @@ def build_cases(tier, seed):
         "family": "CSV tables: 1 column x <=3 rows, 2 columns x <=2 rows over {A,B,blank,'C D','E,F','G\"H'}, 2 columns x 3 rows over {A,blank,'E,F'}, "
                   "3 columns x <=2 rows over {A,B,blank}; each x every ordered selection of rank columns (and []), id column first/middle/last "
                   "(unique/duplicated/blank ids), weight column first/last with weights {1,2,3}, delimiters {default,';',tab}; malformed files; "
-                  "Scottish files with 1..3 candidates (names with spaces and commas), seats 1..2, <=2 ballot rows with multiplicities {1,2,10}, "
+                  "Scottish files with 1..3 and 10, 12 candidates (names with spaces and commas), seats 1..2, <=2 ballot rows with multiplicities {1,2,10}, "
                   "blank rows, malformed metadata; to_csv on Prof(Weak(3),2,{1,3/2}) with and without scores",
         "assumptions": ["cell values that pandas itself reinterprets (NA, null, digits) are not in the alphabet",
                         "files are written with csv.writer (minimal quoting) into /verif/.scratch and removed after each case"],
@@ -254,8 +262,8 @@ def run_bad(i, kind, cnt, out):
     cnt["nontrivial"] += 1
 
 
-NAMES = ("Ann", "Bob Lee", "Cy, Jr.", "Dee")
-PARTIES = ("Orange (O)", "Q", "R, S", "T")
+NAMES = ("Ann", "Bob Lee", "Cy, Jr.", "Dee") + tuple(f"Cand {chr(69 + k)}" for k in range(9))
+PARTIES = ("Orange (O)", "Q", "R, S", "T") + tuple(f"P{k}" for k in range(9))
 
 
 def write_scot(path, n, seats, combo, blank_rows=False, first_row=None, ncand_rows=None, declared=None):
